@@ -24,9 +24,9 @@ import (
 
 // fakeS3 is a recording in-process S3Interface with error injection.
 type fakeS3 struct {
-	mu      sync.Mutex
-	objects map[string][]byte // "bucket\x00key"
-	calls   []string          // "PUT bucket key" / "GET bucket key"
+	mu       sync.Mutex
+	objects  map[string][]byte // "bucket\x00key"
+	calls    []string          // "PUT bucket key" / "GET bucket key"
 	failNext error
 }
 
